@@ -522,3 +522,45 @@ class Device:
             self.ask = self.policy.chunk(rem)
             return D(CLA, cmd, OP["BC"], self.ask)
         return self.err(0x6B87)
+
+
+class PowerCycled:
+    """A signer-mode device that drops off the bus at its first APDU (the host sees a write error)
+    and comes back in the bootloader, locked: what a power cycle looks like to the manager."""
+
+    def __init__(self, inner):
+        self.inner = inner
+        self.cycled = False
+
+    def __call__(self, apdu):
+        if not self.cycled:
+            self.cycled = True
+            self.inner.mode = 2
+            self.inner.unlocked = False
+            return ("W",)
+        return self.inner(apdu)
+
+
+class FailOnce:
+    """the link fails (write or read error) at the n-th exchange; the device itself is unharmed"""
+
+    def __init__(self, inner, at=0, kind="W"):
+        self.__dict__["inner"] = inner
+        self.__dict__["at"] = at
+        self.__dict__["kind"] = kind
+        self.__dict__["count"] = 0
+
+    def __call__(self, apdu):
+        n = self.count
+        self.__dict__["count"] = n + 1
+        if n == self.at:
+            if self.kind == "R":
+                self.inner(apdu)          # the device did process the command; its answer is lost
+            return (self.kind,)
+        return self.inner(apdu)
+
+    def __getattr__(self, name):
+        return getattr(self.inner, name)
+
+    def __setattr__(self, name, value):
+        setattr(self.inner, name, value)
